@@ -21,6 +21,22 @@ type SUser struct {
 	Name string            `json:"name,omitempty"`
 	Age  int               `json:"age,omitempty"`
 	Tags map[string]string `json:"tags,omitempty"`
+	// a nested by-value member whose JSON form comes from POINTER-receiver methods: it is only honoured when
+	// the entity is marshalled through an addressable value, as decoding always is
+	Stamp SStamp `json:"stamp"`
+}
+
+// SStamp travels as the JSON string "s<T>".
+type SStamp struct{ T int }
+
+func (s *SStamp) MarshalJSON() ([]byte, error) { return json.Marshal(fmt.Sprintf("s%d", s.T)) }
+func (s *SStamp) UnmarshalJSON(b []byte) error {
+	var str string
+	if err := json.Unmarshal(b, &str); err != nil {
+		return fmt.Errorf("stamp: want a JSON string, got %s", b)
+	}
+	_, err := fmt.Sscanf(str, "s%d", &s.T)
+	return err
 }
 
 type SOrder struct {
@@ -97,7 +113,7 @@ func genC18(rt *rapid.T) core.Scenario {
 }
 
 func sUser(v int) SUser {
-	u := SUser{}
+	u := SUser{Stamp: SStamp{T: v * 3}}
 	if v%2 == 1 {
 		u.Name = fmt.Sprintf("user-%d", v)
 	}
